@@ -327,71 +327,7 @@ func checkPathTaint(r *Run, p *packages.Package, cg *CallGraph) {
 	}
 	// the sanitizer visibly rejects absolute paths, parent traversal and backslashes
 	if sp := FuncDecls(p)[roleName("sanitizeArchivePath")]; sp != nil {
-		txt := exprString(r.Fset, sp.Body)
-		for _, need := range []struct{ what, needle string }{
-			{"absolute paths", "IsAbs("}, {"backslash separators", `"\\"`}, {"empty names", `== ""`}} {
-			if strings.Contains(txt, need.needle) {
-				r.Pass("C20-R2-sanitizer", "sanitizeArchivePath:"+need.what, sp.Pos(), "rejects %s", need.what)
-			} else {
-				r.Fail("C20-R2-sanitizer", "sanitizeArchivePath:"+need.what, sp.Pos(), "sanitizeArchivePath no longer rejects %s", need.what)
-			}
-		}
-		// parent-directory components: a loop over strings.Split(x, "/") rejecting the component ".."
-		dotdot := false
-		ast.Inspect(sp.Body, func(n ast.Node) bool {
-			rs, ok := n.(*ast.RangeStmt)
-			if !ok || !strings.Contains(exprString(r.Fset, rs.X), "strings.Split(") {
-				return true
-			}
-			val, _ := rs.Value.(*ast.Ident)
-			ast.Inspect(rs.Body, func(m ast.Node) bool {
-				ifs, ok := m.(*ast.IfStmt)
-				if !ok {
-					return true
-				}
-				be, ok := ast.Unparen(ifs.Cond).(*ast.BinaryExpr)
-				if !ok || be.Op != token.EQL {
-					return true
-				}
-				id, okI := ast.Unparen(be.X).(*ast.Ident)
-				lit, okL := ast.Unparen(be.Y).(*ast.BasicLit)
-				if okI && okL && val != nil && p.TypesInfo.Uses[id] == p.TypesInfo.Defs[val] && lit.Value == `".."` {
-					for _, st := range ifs.Body.List {
-						if ret, ok := st.(*ast.ReturnStmt); ok && len(ret.Results) == 2 && !isNilIdent(p.TypesInfo, ret.Results[1]) {
-							dotdot = true
-						}
-					}
-				}
-				return true
-			})
-			return true
-		})
-		if dotdot {
-			r.Pass("C20-R2-sanitizer", "sanitizeArchivePath:parent-directory components", sp.Pos(), "every slash-separated component equal to \"..\" is rejected")
-		} else {
-			r.Fail("C20-R2-sanitizer", "sanitizeArchivePath:parent-directory components", sp.Pos(), "sanitizeArchivePath no longer rejects a \"..\" path component: an entry named a/../../x escapes the output directory")
-		}
-		// every rejection returns a non-nil error: no `return <x>, nil` before the final return
-		rets := 0
-		bad := 0
-		ast.Inspect(sp.Body, func(n ast.Node) bool {
-			if ifs, ok := n.(*ast.IfStmt); ok {
-				for _, st := range ifs.Body.List {
-					if rs, ok := st.(*ast.ReturnStmt); ok && len(rs.Results) == 2 {
-						rets++
-						if isNilIdent(p.TypesInfo, rs.Results[1]) {
-							bad++
-						}
-					}
-				}
-			}
-			return true
-		})
-		if rets >= 4 && bad == 0 {
-			r.Pass("C20-R2-sanitizer", "sanitizeArchivePath:rejections-return-errors", sp.Pos(), "%d rejecting branches, all return an error", rets)
-		} else {
-			r.Fail("C20-R2-sanitizer", "sanitizeArchivePath:rejections-return-errors", sp.Pos(), "a rejecting branch of the sanitizer returns a nil error (%d of %d)", bad, rets)
-		}
+		checkArchivePathSanitizer(r, p, sp)
 	} else {
 		r.Undecide("C20-R2: sanitizeArchivePath not found")
 	}
@@ -421,7 +357,7 @@ func checkRegularOnly(r *Run, p *packages.Package, decls map[string]*ast.FuncDec
 		return
 	}
 	// checks factored out into an error-returning helper are looked at where the helper is called
-	list := spliceGatedHelpers(p, loop.Body.List, 2)
+	list := guardClauseForm(spliceGatedHelpers(p, loop.Body.List, 2))
 	idxExtract, _ := firstStmtCalling(p, list, func(fn *types.Func, c *ast.CallExpr) bool {
 		return fn != nil && fn.Pkg() == p.Types && fn.Name() == roleName("unpackTarFileTracked")
 	})
@@ -734,6 +670,86 @@ func checkArmedCleanup(r *Run, p *packages.Package, cg *CallGraph, fn *types.Fun
 			r.Pass("C20-R4-staging", construct+":armed-cleanup", fd.Pos(), "staging is removed by an armed defer on every error; promotion (step %d) follows the error-gated extraction+validation (step %d); cleanup is disarmed only afterwards (step %d)", promoteGate, extractGate, clearedAt)
 		} else {
 			r.Fail("C20-R4-staging", construct+":armed-cleanup", fd.Pos(), "staging protocol out of order (extraction gate %d, promotion gate %d, cleanup disarmed at %d): unvalidated content can be promoted, or staging is kept after an error", extractGate, promoteGate, clearedAt)
+		}
+		return
+	}
+	// idiom C: defer func(){ if err != nil { RemoveAll } }() — armed by the error variable itself. Every return after the
+	// defer hands back nil or that very variable (a shadowing `if err := …` declares another one, which the deferred
+	// function does not see), unless the variable is the function's named result, which every return assigns.
+	for di, st := range list {
+		ds, ok := st.(*ast.DeferStmt)
+		if !ok {
+			continue
+		}
+		fl, ok := ds.Call.Fun.(*ast.FuncLit)
+		if !ok {
+			continue
+		}
+		var errObj types.Object
+		ast.Inspect(fl.Body, func(n ast.Node) bool {
+			if ifs, ok := n.(*ast.IfStmt); ok {
+				if be, ok := ast.Unparen(ifs.Cond).(*ast.BinaryExpr); ok && be.Op == token.NEQ && isNilIdent(info, ast.Unparen(be.Y)) {
+					if id, ok := ast.Unparen(be.X).(*ast.Ident); ok && stmtHasCall(ifs.Body, func(c *ast.CallExpr) bool {
+						f := calleeOf(info, c)
+						return f != nil && funcFullName(f) == "os.RemoveAll"
+					}) {
+						if v, isVar := info.Uses[id].(*types.Var); isVar && types.Identical(v.Type(), types.Universe.Lookup("error").Type()) {
+							errObj = v
+						}
+					}
+				}
+			}
+			return true
+		})
+		if errObj == nil {
+			continue
+		}
+		named := false
+		if fd.Type.Results != nil {
+			for _, rl := range fd.Type.Results.List {
+				for _, nm := range rl.Names {
+					if info.Defs[nm] == errObj {
+						named = true
+					}
+				}
+			}
+		}
+		var uncovered *ast.ReturnStmt
+		nret := 0
+		for _, later := range list[di+1:] {
+			ast.Inspect(later, func(n ast.Node) bool {
+				if _, isLit := n.(*ast.FuncLit); isLit {
+					return false
+				}
+				rs, ok := n.(*ast.ReturnStmt)
+				if !ok || len(rs.Results) == 0 {
+					return true
+				}
+				nret++
+				last := ast.Unparen(rs.Results[len(rs.Results)-1])
+				if named || isNilIdent(info, last) {
+					return true
+				}
+				if id, ok := last.(*ast.Ident); ok && info.Uses[id] == errObj {
+					return true
+				}
+				if uncovered == nil {
+					uncovered = rs
+				}
+				return true
+			})
+		}
+		switch {
+		case uncovered != nil:
+			what := "`" + exprString(r.Fset, uncovered.Results[len(uncovered.Results)-1]) + "`"
+			if id, ok := ast.Unparen(uncovered.Results[len(uncovered.Results)-1]).(*ast.Ident); ok && id.Name == errObj.Name() && info.Uses[id] != nil {
+				what = "a different variable of the same name, declared at " + r.Pos(info.Uses[id].Pos()) + ", which shadows it"
+			}
+			r.Fail("C20-R4-staging", construct+":cleanup-on-error", uncovered.Pos(), "the staging directory is removed by a deferred function that looks at %s, but this return hands back %s: the deferred function sees nil and the staging directory, with whatever was extracted, stays behind", errObj.Name(), what)
+		case extractGate >= 0 && promoteGate > extractGate:
+			r.Pass("C20-R4-staging", construct+":cleanup-on-error", fd.Pos(), "staging is removed by a deferred function armed by the error the %d later returns hand back; promotion (step %d) follows the error-gated extraction (step %d)", nret, promoteGate, extractGate)
+		default:
+			r.Fail("C20-R4-staging", construct+":cleanup-on-error", fd.Pos(), "staging protocol out of order (extraction gate %d, promotion gate %d): unvalidated content can be promoted", extractGate, promoteGate)
 		}
 		return
 	}
